@@ -130,6 +130,25 @@ let run_calc line =
                 (try ignore (Str.search_forward (Str.regexp_string "**") ex 0); true with Not_found -> false) in
   show c ^ " | exact " ^ (match c with POk _ when not has_pow -> show (eval (exact t) chars) | _ -> "-")
 
+(* NTH n start bias: the model of nth_prime with the walks and the count supplied by the kernel oracle and
+   estimate functions that are the exact answers shifted by <bias> percent (any function is allowed by the theorem) *)
+let run_nth n start bias =
+  let next_ge x = let x = ref x in while Zr.leq !x mAX64 && not (mr !x) do x := Zr.succ !x done; if Zr.leq !x mAX64 then Some !x else None in
+  let prev_le x = let x = ref x in while Zr.geq !x (Zr.of_int 2) && not (mr !x) do x := Zr.pred !x done; if Zr.geq !x (Zr.of_int 2) then Some !x else None in
+  let fwd s k = let rec go s k = match next_ge s with None -> None | Some p -> if Zr.equal k Zr.one then Some p else go (Zr.succ p) (Zr.pred k) in go s k in
+  let bwd s k = let rec go s k = match prev_le s with None -> Zr.zero | Some p -> if Zr.equal k Zr.one then p else go (Zr.pred p) (Zr.pred k) in go s k in
+  let cnt a b = let c = ref 0 and x = ref a in while Zr.leq !x b do (if mr !x then incr c); x := Zr.succ !x done; Zr.of_int !c in
+  (* estimates (any functions are allowed by the theorem): the distance |n| * ln(start + |n|) to the target,
+     scaled by (100 + bias) percent, so that the walk lands before or beyond the target *)
+  let an = Zr.abs n in
+  let d = Zr.of_float (Zr.to_float an *. (log (Zr.to_float start +. Zr.to_float an +. 3.0) +. 1.0)) in
+  let d = Zr.div (Zr.mul d (Zr.of_int (100 + bias))) (Zr.of_int 100) in
+  let pi_approx _ = Zr.zero in
+  let nth_approx _ = if Zr.geq n Zr.zero then Zr.min mAX64 (Zr.add start d) else Zr.max Zr.zero (Zr.sub start d) in
+  match nth_prime pi_approx nth_approx cnt fwd bwd n start with
+  | NOk p -> "ok " ^ pr p
+  | NThrow -> "err"
+
 let read_block () =
   let rec go acc = match input_line stdin with
     | "END" -> List.rev acc
@@ -144,6 +163,7 @@ let () =
       match String.split_on_char ' ' line with
       | "ITER" :: args -> let ls = read_block () in run_iter args ls; print_endline "END"
       | "CALC" :: _ -> print_endline (run_calc line)
+      | ["NTH"; n; st; bias] -> print_endline (run_nth (z n) (z st) (int_of_string bias))
       | "LEAF" :: toks -> print_endline (run_leaf toks)
       | ["PLAN"; a; b; nt; md] ->
         (* hook distance md (0 = production constants): minDist = md, threshold = md *)
